@@ -2,7 +2,9 @@
 //! mlsmc <ID> <tier> --shard i/n --out F  worker
 //! mlsmc <ID> replay <file>               replays a violation artefact
 
+mod alloc_count;
 mod checks;
+mod corpus;
 mod engine;
 mod oracles;
 mod providers;
@@ -19,6 +21,9 @@ use std::time::Instant;
 use serde_json::{json, Value};
 
 use engine::{Ctx, Report};
+
+#[global_allocator]
+static ALLOC: alloc_count::Counting = alloc_count::Counting;
 
 fn root() -> String {
     std::env::var("VERIF_ROOT").unwrap_or_else(|_| "/verif".into())
